@@ -70,6 +70,7 @@ def op_line(op, v, sr, ex, dlen):
         return 'read %s 3' % v, None
     if op.startswith('set_time_'):
         sr.syms['tval'] = ex.fresh('tval', 64)
+        ex.assume(z3.ULT(sr.syms['tval'], z3.BitVecVal(1 << 62, 64)))     # representable as a SystemTime (i64 seconds)
         return 'set_time %s %s $tval' % (v, op[-1]), None
     return '%s %s' % (op, v), None
 
